@@ -65,6 +65,10 @@ def tok_allowed(kind, tok):
 def run(ctx):
     freezemap_rule(ctx)
     ser_narrowing_rule(ctx)
+    # a pooled scratch buffer that is handed out non-empty prefixes a later value's encoding with stale bytes while the
+    # serializer still returns Ok (shared with C13 / C14 / C15)
+    from .c14 import pool_rule
+    pool_rule(ctx)
     f = ctx.f
     m = matrix(f)
     ctx.floor('WIRE', 'serializer functions matching on the schema node', len(m), 13)
